@@ -192,6 +192,27 @@ func hostCheck(res *vs.Result, user any) []vs.Violation {
 			}
 		}
 	}
+	// an established session is served by ITS OWN handler instances: the handler map and the event callbacks are created
+	// per connection in the same accept step, so the handler that sees a message and the eventer that reports it carry
+	// the same connection number unless another connection's handlers took the session over
+	type mk struct {
+		phone      string
+		id, serial uint16
+	}
+	evConn := map[mk]int{}
+	for _, e := range r.w.ev {
+		if e.Kind == "tread" {
+			evConn[mk{e.Snap.Phone, e.Snap.ID, e.Snap.Serial}] = e.Conn
+		}
+	}
+	for _, e := range r.w.ev {
+		if e.Kind == "hread" {
+			if c, ok := evConn[mk{e.Snap.Phone, e.Snap.ID, e.Snap.Serial}]; ok && c != e.Conn {
+				add("handler-of-another-connection", fmt.Sprintf("message %04x #%d of %s arrived on connection %d but was handled by the handler instance created for connection %d: a later client took over an established session's handlers", e.Snap.ID, e.Snap.Serial, e.Snap.Phone, c, e.Conn))
+				break
+			}
+		}
+	}
 	if r.scn.SameKey {
 		// H races V for the same key: whoever joins first owns it; the other is refused. Only crash containment
 		// and the third client are checked (the registry itself is C11's subject).
